@@ -46,8 +46,9 @@ def shards(tier, seed):
             out.append({"id": "cold-%d" % i, "kind": "cold", "pairs": cold[i::3], "points": 14})
         out.append({"id": "cold-xcopy5", "kind": "cold", "pairs": [("ExtendedCopy5", "ExtendedCopy5")], "points": 48})
         out.append({"id": "cold-xcopy4", "kind": "cold", "pairs": [("ExtendedCopy4", "ExtendedCopy4")], "points": 48})
-        out.append({"id": "cold-data", "kind": "cold", "pairs": [("data:reportluns:300", "data:reportluns:300"), ("data:inquiry.vpd83:40", "data:reportluns:300"),
-                                                              ("data:getlbastatus:300", "data:getlbastatus:300")], "points": 40})
+        out.append({"id": "cold-data", "kind": "cold", "pairs": [("data:inquiry.vpd83:40", "data:reportluns:300"), ("data:getlbastatus:300", "data:getlbastatus:300")], "points": 40})
+        out.append({"id": "cold-luns-a", "kind": "cold", "pairs": [("data:reportluns:300", "data:reportluns:300")], "points": 100, "phase": 0})
+        out.append({"id": "cold-luns-b", "kind": "cold", "pairs": [("data:reportluns:300", "data:reportluns:300")], "points": 100, "phase": 1})
         out.append({"id": "sched-rand", "kind": "schedrand", "n": 300})
     else:
         for i in range(0, 42, 3):
@@ -694,6 +695,7 @@ def cold_runs(ctx, shard):
             if n0 is None:
                 n0 = r["per_thread"][0]
                 step = max(1, n0 // shard["points"])
+                k += (step // 2) * shard.get("phase", 0)  # two shards with the same stride interleave their preemption points
             k += step
             if k > n0:
                 break
